@@ -20,10 +20,10 @@ Theorem C20_anm_name_value_is_table_value : forall inp tbl args,
 Proof. exact anm_name_value_is_table_value. Qed.
 
 (* the rule itself: the constants gather_sprite_id_exprs defines are the ids write_entry assigns *)
-Theorem C20_sprite_const_is_written_id : forall decls w,
-  written_ids 1 0 decls = Ok w ->
+Theorem C20_sprite_const_is_written_id : forall wraps decls w,
+  written_ids wraps 1 0 decls = Ok w ->
   exists cs, const_ids SeqAdd 0 0 0 decls = Ok cs /\ map (fun p => u32 (snd p)) cs = w /\ map fst cs = map sd_name decls.
-Proof. intros decls w H. exact (const_vs_written decls 0 0 0 w eq_refl H). Qed.
+Proof. intros wraps decls w H. exact (const_vs_written wraps decls 0 0 0 w eq_refl H). Qed.
 
 (* (2) one name with two different values, or a name that does not exist, is an error *)
 Theorem C20_anm_ambiguous_or_missing_is_error : forall inp consts,
@@ -33,14 +33,16 @@ Theorem C20_anm_ambiguous_or_missing_is_error : forall inp consts,
   exists e, compile_anm gen_idtable inp = Err e.
 Proof. exact anm_ambiguous_or_missing_is_error. Qed.
 
-(* (3) known defect (#18): a sprite id of 0xFFFFFFFF makes write_entry overflow; below the bound it cannot *)
-Theorem C20_sprite_id_overflow_refuted : exists inp, compile_anm gen_idtable inp = Panic P_OVERFLOW.
-Proof. exact sprite_id_overflow_refuted. Qed.
+(* (3) defect #18 (a sprite id of 0xFFFFFFFF made `sprite_id + 1` overflow in write_entry; repaired in /repo by b32efe8,
+       after which gen/ids.py emits it_writer_wraps := true): the writer of the current tree never overflows; for the
+       non-wrapping writer the bound below is the guard *)
+Theorem C20_sprite_writer_is_total : forall decls, exists w, written_ids (it_writer_wraps gen_idtable) 1 0 decls = Ok w.
+Proof. exact sprite_writer_is_total. Qed.
 
 Theorem C20_sprite_ids_below_bound_no_overflow : forall B decls,
   0 <= B -> B + Z.of_nat (length decls) < two32 ->
   (forall d e, In d decls -> sd_id d = Some e -> 0 <= e < B) ->
-  exists w, written_ids 1 0 decls = Ok w.
+  exists w, written_ids false 1 0 decls = Ok w.
 Proof. exact sprite_ids_below_bound_no_overflow. Qed.
 
 (* (4) ANM scripts, old-ECL subs, STD objects: a reference is the position in file order; duplicates and unknown
